@@ -109,7 +109,8 @@ type CallPlan struct {
 	YieldOn      [simhttp.NumPoints]bool
 	SlowOn       [simhttp.NumPoints]bool
 
-	byz *byzInfo            // C06/C07: what the byzantine peer did
+	c07 *c07Info
+	byz *byzInfo            // C06: what the byzantine peer did
 	bin map[string][][]byte // original bytes of generated -Bin values
 
 	TimeoutString string // C10: header string under test and its class
